@@ -137,7 +137,7 @@ pub fn child(k: usize, outdir: &str, seed: u64, thorough: bool) -> serde_json::V
             let y = match y { Ok(Some(v)) if v == Value::none() && !vs.iter().any(|a| *a == Value::none()) => Ok(None), other => other };
             st.evaluations += 1;
             let key = format!("{:?}|{}|{}", f, dts.iter().map(|d| d.to_string()).collect::<Vec<_>>().join(","), vs.iter().map(|v| v.to_string()).collect::<Vec<_>>().join(","));
-            let desc = |kind: &str, extra: serde_json::Value| json!({"kind":kind,"function":format!("{:?}", f),"ulp_close":extra.get("ulp_close").and_then(|b| b.as_bool()).unwrap_or(false),"types":dts.iter().map(|d| d.to_string()).collect::<Vec<_>>(),"arguments":vs.iter().map(|v| v.to_string()).collect::<Vec<_>>(),"detail":extra});
+            let desc = |kind: &str, extra: serde_json::Value| json!({"kind":kind,"function":format!("{:?}", f),"all_arguments_null":vs.iter().all(|a| *a == Value::none()),"negative_zero":vs.iter().any(|a| matches!(a, Value::Float(x) if **x == 0.0)) && dts.iter().any(|d| d.to_string().contains("-0")),"ulp_close":extra.get("ulp_close").and_then(|b| b.as_bool()).unwrap_or(false),"types":dts.iter().map(|d| d.to_string()).collect::<Vec<_>>(),"arguments":vs.iter().map(|v| v.to_string()).collect::<Vec<_>>(),"detail":extra});
             match (&y, &img) {
                 (Err(_), _) => { st.bump("value_panicked"); }
                 (Ok(None), _) => { st.bump("value_not_defined"); }
